@@ -482,3 +482,33 @@ def handler_consumes_request(ctx, rep, rid, only=None):
                 ok = f in u
                 rep.ob(rid, d, '%s.%s consumed' % (short_, f), ok, None, None if ok else
                        'the handler never reads `%s` of the %s it received: the value the client sent has no effect' % (f, short_))
+
+    # ------------------------------------------------------------ R13.s the permissions encoder restarts the topic counter for every stream
+    rep.rule('R13.s', 'Permissions::to_bytes writes "one more follows" flags from two counters: the stream counter starts at 1 once, the topic counter starts at 1 again for every stream (initialised inside the stream loop); the decoder reads the flags per stream', floor=2, analysis='A2 loop structure')
+    PTB = '<iggy::models::permissions::Permissions as iggy::bytes_serializable::BytesSerializable>::to_bytes'
+    if not ctx.has(PTB):
+        rep.anchor_lost('R13.s', PTB)
+    else:
+        pb_ = ctx.fn_body(PTB)
+        lps = [bl for _, bl in natural_loops(pb_) if len(bl) > 6]
+        depth = {}
+        for bb_ in sorted(pb_.reach):
+            for s_ in pb_.stmts(bb_):
+                lhs_ = s_.get('lhs')
+                if lhs_ and len(lhs_) == 1 and pb_.local_name(lhs_[0]) in ('current_topic', 'current_stream') and s_.get('rv', {}).get('r') == 'use' and 'k' in s_['rv'].get('a', {}):
+                    depth[pb_.local_name(lhs_[0])] = sum(1 for bl in lps if bb_ in bl)
+        for name_, want_ in (('current_stream', 0), ('current_topic', 1)):
+            ok_ = depth.get(name_) == want_
+            rep.ob('R13.s', PTB, '%s starts at 1 %s' % (name_, 'once' if want_ == 0 else 'for every stream'), ok_, None, None if ok_ else
+                   '`%s` is initialised at loop depth %s (confirmed: %d): the "one more topic follows" flags of the second stream continue the count of the first, and the decoder reads past the end' % (name_, depth.get(name_), want_))
+
+    # ------------------------------------------------------------ R13.t the consumer kind survives decoding
+    rep.rule('R13.t', 'the four request decoders that carry a consumer (poll, store / get / delete offset) rebuild it with the kind decoded from the wire: a Consumer with kind = ConsumerKind::from_code(first byte), or one constructor per kind', floor=4, analysis='A6 sibling forms')
+    import forms as forms_t
+    for dfn in sorted(d_ for d_ in ctx.facts.fns if d_.endswith('BytesSerializable>::from_bytes') and d_.startswith(('<iggy::consumer_offsets::', '<iggy::messages::poll_messages::PollMessages'))):
+        ags = [a for a, _ in forms_t.aggregate_forms(ctx, dfn, 'iggy::consumer::Consumer')]
+        fb_ = ctx.fn_body(dfn)
+        ctors = {c.name.split('::')[-1] for c in fb_.calls if c.name.startswith('iggy::consumer::Consumer::') and is_user_call(c)}
+        ok_ = any(a.get('kind', '').startswith('ConsumerKind::from_code(') for a in ags) or {'new', 'group'} <= ctors
+        rep.ob('R13.t', dfn, 'consumer kind from the wire', ok_, None, None if ok_ else
+               'the decoder no longer rebuilds the consumer with the kind it read (aggregates: %s, constructors: %s): a request of a consumer group is executed for the consumer with the same id' % (ags, sorted(ctors)))
